@@ -47,6 +47,9 @@ CHECKS['C17'] = dict(
         quick=[dict(tu='c17_sampler', group='sample_gray8', bounds=_c17_s, shards=2),
                dict(tu='c17_sampler', group='sample_rgb8', bounds=_c17_s, shards=2),
                dict(tu='c17_sampler', group='sample_gray32f', bounds=_c17_s, shards=2),
+               dict(tu='c17_sampler', group='sample_gray16s', bounds=_c17_s, shards=2),
+               dict(tu='c17_sampler', group='sample_rgba16', bounds=_c17_s, shards=2),
+               dict(tu='c17_sampler', group='sample_rgb32f', bounds=_c17_s, shards=2),
                dict(tu='c17_sampler', group='resample', bounds=dict(src_shapes=3, dst_shapes=3, types=2), shards=6),
                dict(tu='c17_sampler', group='resize', bounds=dict(maxn=5), shards=1),
                dict(tu='c17_sampler', group='lanczos', bounds=dict(maxn=3), shards=1),
